@@ -758,9 +758,14 @@ def _engine(ctx: Ctx, env: Env, rng, at: str, spk: bytes, script: bytes, control
     extra = [_rand_bytes(rng, rng.randrange(0, 5)) for _ in range(rng.randrange(0, 3))]
     o = outcome(env.unwrap, spk, [*extra, script, control])
     ctx.mon(f"E3:engine-unwrap:{at}")
-    if o[0] == "raise" or tuple(o[1]) != (script, extra, v):
+    if o[0] == "raise":
         ctx.violation("engine-unwrap-rejects-produced-control-block", f"taproot_unwrap_script [{at}] {_lib_reason(o)}",
                       {**case, "arm": at, "control": control, "script": script[:300]})
+    elif tuple(o[1]) != (script, extra, v):
+        what = "leaf-version" if tuple(o[1])[:2] == (script, extra) else "script-or-stack"
+        ctx.violation(f"engine-unwrap-wrong-{what}",
+                      f"taproot_unwrap_script [{at}] answered {o[1]!r:.200}; the committed leaf is version {v:#x} with that script",
+                      {**case, "arm": at, "control": control, "script": script[:300], "want_version": v})
     bits = [0, rng.randrange(1, 8), rng.randrange(8, 264)] + ([rng.randrange(264, len(control) * 8)] if len(control) > 33 else [])
     for bit in bits:
         o = outcome(env.unwrap, spk, [*extra, script, _flip(control, bit)])
@@ -790,6 +795,7 @@ def shard_trees(ctx: Ctx) -> None:
     shapes = _shape_list(ctx.tier)
     # a fixed interleaving, so that every shard sees every shape family
     mine = [s for j, s in enumerate(shapes) if j % ctx.params["parts"] == ctx.params["part"]]
+    mine.append(("sizes", 65536 + 977 * ctx.params["part"]))  # every shard meets the 5-byte compact size once
     rng.shuffle(mine)
     pool = _key_pool(rng, 24 if quick else 60)
     done = 0
